@@ -111,7 +111,7 @@ def match_known_direct(known, harness, key):
 
 # ----------------------------------------------------------------------------- smoke runs
 
-def smoke_run(ob, encoded):
+def smoke_run(ob, encoded, failed_args=None):
   """Runs the harness concretely on its default arguments; records fiddle functions entered."""
   import sys as _sys
   mon = getattr(_sys, 'monitoring', None)
@@ -141,9 +141,13 @@ def smoke_run(ob, encoded):
       if r is not True:
         ok = False
         err = f'smoke run of {ob.name} returned {r!r} on {args!r}'
+        if failed_args is not None:
+          failed_args.append(args)
         break
   except Exception as e:  # pylint: disable=broad-except
     ok = False
+    if failed_args is not None:
+      failed_args.append(args)
     err = f'smoke run of {ob.name} raised {type(e).__name__}: {e}\n' + traceback.format_exc()[-1500:]
   finally:
     if mon is not None:
@@ -199,12 +203,28 @@ def run_property(pid, tier, only=None, jobs=None, write_evidence=True, cube_filt
   encoded = set()
 
   # 1. smoke runs (concrete, in this process) -------------------------------------------
+  smoke_violations = []
   for ob in obligations:
     if ob.kind == 'crosshair' and ob.smoke is not None:
-      ok, err = smoke_run(ob, encoded)
+      failed = []
+      ok, err = smoke_run(ob, encoded, failed)
       if not ok:
-        harness_errors.append(err)
         log('SMOKE FAILED:', err)
+        # A harness that fails on its concrete default arguments in a plain interpreter is a reproduced
+        # counterexample like any other (e.g. allocator-dependent id reuse that CrossHair's tracing masks).
+        reported = False
+        if failed:
+          path = write_replay(pid, ob.fn.__module__, ob.fn.__name__, failed[0], err)
+          if replay_file(path) != 0:
+            kf = match_known(known, ob.name, failed[0])
+            if kf is None:
+              smoke_violations.append((ob.name, path, err))
+              print(f'VIOLATION property={pid} replay={path}', flush=True)
+              reported = True
+          else:
+            os.remove(path)
+        if not reported:
+          harness_errors.append(err)
   smoke_failed = bool(harness_errors)
 
   # 2. schedule cubes -------------------------------------------------------------------
@@ -229,7 +249,7 @@ def run_property(pid, tier, only=None, jobs=None, write_evidence=True, cube_filt
   for ob, cube in work:
     submit_cube(ob, cube)
 
-  violations = []      # (harness, replay_path, message)
+  violations = list(smoke_violations)      # (harness, replay_path, message)
   known_seen = {}      # finding id -> what
   artefacts = []
   total = dict(obligations=0, discharged=0, inconclusive=0, paths=0, confirmed_paths=0,
